@@ -8,6 +8,7 @@ import (
 	"context"
 	"fmt"
 	"math"
+	"reflect"
 	"strconv"
 	"strings"
 	"sync"
@@ -937,7 +938,7 @@ func (lexLiteralEngine) Class(op, ans string) string {
 	case strings.HasPrefix(ans, "PANIC"):
 		return w[0] + ":" + k + ":panic"
 	case strings.Contains(ans, "E=-") || strings.HasPrefix(ans, "s:") || strings.HasPrefix(ans, "i:") || strings.HasPrefix(ans, "f:") || strings.HasPrefix(ans, "d:"):
-		return w[0] + ":" + k + ":lexAccepted"
+		return w[0] + ":" + k + ":accepted"
 	}
 	return w[0] + ":" + k + ":other"
 }
@@ -1217,6 +1218,81 @@ func lexQualifiedNameShapes() []string {
 	return out
 }
 
+// lexRecoveredSemanticShapes: every statement kind whose grammar rule tolerates a missing
+// terminator or has an error-recovery production, written WITHOUT its `;` (or with a missing `=`,
+// a missing value, a stray token), combined with every semantic check of parser/result.go and
+// parser/validate.go that can mention the same node (duplicate package / syntax, unknown syntax,
+// message_set_wire_format rules, json_name conflicts, tag ranges, reserved overlaps, proto3
+// restrictions, duplicate options, allow_alias, map key types, groups), at the end of the file
+// (truncation) and in the middle. With a reporter that keeps going the parser returns a partial AST
+// and ResultFromAST then reports about exactly those nodes.
+func lexRecoveredSemanticShapes() []string {
+	var out []string
+	heads := []string{"", "syntax = \"proto2\";\n", "syntax = \"proto3\";\n", "edition = \"2023\";\n"}
+	// file scope: (statement with its `;` removed or otherwise damaged)
+	fileDamaged := []string{
+		"syntax = \"proto3\"", "syntax = \"proto2\"", "syntax = \"proto4\"", "syntax \"proto3\";", "syntax = ;", "edition = \"2023\"", "edition = \"1999\"",
+		"package a.b", "package b", "package a.", "package ;", "import \"x.proto\"", "import public \"x.proto\"", "import weak \"y.proto\"", "import \"x.proto\" \"z\"",
+		"option java_package = \"x\"", "option (a.b) = 1", "option (a.b).c = { x: 1 }", "option java_package \"x\";", "option java_package = ;", "option = 1;",
+		"option message_set_wire_format = true", "option deprecated = true", "option (a) = -", "option optimize_for = SPEED",
+	}
+	fileTrouble := []string{
+		"package a;", "package a.b.c;", "syntax = \"proto3\";", "syntax = \"proto2\";", "import \"x.proto\";", "import \"x.proto\";\nimport \"x.proto\";",
+		"option java_package = \"y\";", "option java_package = \"y\";\noption java_package = \"z\";", "message M { }", "message M { } message M { }",
+		"message M { option message_set_wire_format = true; }", "enum E { A = 1; }", "enum E { }", "service S { rpc R(M) returns (M); rpc R(M) returns (M); }",
+	}
+	for _, h := range heads {
+		for i, d := range fileDamaged {
+			for j, t := range fileTrouble {
+				if (i+j)%3 != 0 { // a third of the product, every damaged statement meets every trouble across heads
+					continue
+				}
+				out = append(out, h+t+"\n"+d, h+d+"\n"+t, h+t+"\n"+d+"\n"+t)
+			}
+			out = append(out, h+d, h+d+"\n"+d, d+"\n"+h)
+		}
+	}
+	// message scope
+	msgDamaged := []string{
+		"option message_set_wire_format = true", "option message_set_wire_format = true optional int32 f = 1;", "option deprecated = true",
+		"option (a.b) = 1", "option no_standard_descriptor_accessor = ", "optional int32 f = 1", "optional int32 f = 0", "optional int32 f = 19000",
+		"optional int32 f = 536870912", "optional int32 f = 1 [json_name = \"g\"]", "optional int32 f = 1 [default = 1]", "optional int32 f = 1 [default = ]",
+		"optional int32 f = 1 [json_name = \"g\", json_name = \"h\"]", "optional int32 f 1;", "optional int32 = 1;", "optional int32 f = ;", "int32 f = 1",
+		"required int32 f = 1", "repeated int32 f = 1 [packed = true]", "optional group G = 1 { }", "optional group g = 1 { }", "map<string, int32> m = 1",
+		"map<float, int32> m = 1", "map<string, M> m = 0", "reserved 1 to 5, 3", "reserved 5 to 1", "reserved \"f\", \"f\"", "reserved 1, \"f\"", "reserved 1 to",
+		"extensions 5 to 1", "extensions 1 to 5, 3", "extensions 1 to max", "extensions 19000 to 19999", "extensions 1 to 536870912", "extensions 1 [ d ]", "extensions 1 [ ]",
+		"oneof o { int32 f = 1 }", "oneof o { }", "oneof o { option (a) = 1 }", "oneof o { optional int32 f = 1; }", "enum E { A = 1 }", "enum E { }", "enum E { option allow_alias = true A = 0; }",
+		"enum E { A = 0 B = 0 }", "enum E { A = 0; reserved 0 }", "enum E { A = 0; reserved \"A\" }", "enum E { A = 0 [ d ] }", "enum E { A = 2147483648 }", "message N { option message_set_wire_format = true }",
+		"extend N { optional int32 e = 1 }", "extend N { }", "extend N { int32 e = 0 }",
+	}
+	msgTrouble := []string{
+		"", "optional int32 f = 1;", "optional int32 g = 1;", "optional int32 f_g = 2; optional int32 fG = 3;", "optional int32 a = 2 [json_name = \"f\"];",
+		"extensions 4 to 10;", "reserved 1;", "reserved \"f\";", "option message_set_wire_format = true;", "option message_set_wire_format = true; extensions 4 to max;",
+		"extend N { optional int32 e = 1; }", "map<string, int32> f = 1;",
+	}
+	for hi, h := range heads {
+		for i, d := range msgDamaged {
+			for j, t := range msgTrouble {
+				if (i+j+hi)%4 != 0 {
+					continue
+				}
+				out = append(out, h+"message M { "+t+" "+d+" }", h+"message M { "+d+" "+t+" }", h+"message M { "+t+" "+d) // the last one is truncated
+			}
+		}
+	}
+	// service / method scope
+	svcDamaged := []string{
+		"rpc R(M) returns (M)", "rpc R(M) returns (M) { option deprecated = true }", "rpc R(M) returns (M) { option (a) = 1 } rpc R(M) returns (M);", "rpc R() returns (M);",
+		"rpc R(M) returns ();", "rpc R(stream M) returns (stream", "option deprecated = true", "option (a.b) = ", "rpc R(M) (M);", "rpc (M) returns (M);",
+	}
+	for _, h := range heads[:3] {
+		for _, d := range svcDamaged {
+			out = append(out, h+"service S { "+d+" }", h+"service S { rpc R(M) returns (M); "+d+" }", h+"service S { "+d, h+"service S { "+d+" } service S { }")
+		}
+	}
+	return out
+}
+
 // lexErrorShapes: inputs that drive the parser through each of its error productions
 // ("expecting ';'", "unexpected '.'", "unexpected ','", valueless / empty compact options, bad
 // negative identifiers) in every declaration kind that can carry them.
@@ -1254,6 +1330,105 @@ type lexTotObs struct {
 	err      bool
 	errs     []lexErr
 	resPanic string
+	// errors (with a position) that ResultFromAST + validation reported, lenient reporter
+	resErrs []lexErr
+	// outcome of touching every node of the returned AST: "ok", "nil-child:<parent type>",
+	// "bad-span:<type>", "PANIC:<msg>"
+	walk string
+}
+
+func lexIsNilNode(n ast.Node) bool {
+	if n == nil {
+		return true
+	}
+	v := reflect.ValueOf(n)
+	return v.Kind() == reflect.Ptr && v.IsNil()
+}
+
+// lexWalkAST touches every node of the AST: Start()/End() tokens, NodeInfo (start and end
+// position, raw text, leading whitespace, comments) and the children of every composite node;
+// then lets ast.Walk visit everything once more.
+func lexWalkAST(root *ast.FileNode, dataLen int) (outcome string) {
+	defer func() {
+		if r := recover(); r != nil {
+			outcome = "PANIC:" + strings.ReplaceAll(Canon(fmt.Sprint(r)), " ", "_")
+		}
+	}()
+	// problems by priority: nil child, bad span, bad EOF token
+	var nilChild, badSpan, badEOF string
+	fi := root.VerifFileInfo()
+	items := fi.VerifItems()
+	// the EOF token must be the last item, and empty; when it is not (the lexer stopped before the
+	// end of input and never produced one) the file node's own span is meaningless: say so once and
+	// keep checking everything else
+	eofOK := root.EOF != nil && int(root.EOF.Token()) == len(items)-1 && len(items) > 0 && items[len(items)-1][1] == 0
+	if !eofOK {
+		badEOF = "bad-eof-token"
+	}
+	var visit func(n ast.Node, parent string)
+	visit = func(n ast.Node, parent string) {
+		if lexIsNilNode(n) {
+			if nilChild == "" {
+				nilChild = "nil-child:" + parent
+			}
+			return
+		}
+		typ := strings.TrimPrefix(fmt.Sprintf("%T", n), "*ast.")
+		skipSpan := !eofOK && (n == ast.Node(root) || n == ast.Node(root.EOF))
+		if cn, ok := n.(ast.CompositeNode); ok {
+			// a nil child makes the parent's own Start()/End() meaningless: name it instead
+			for _, ch := range cn.Children() {
+				if lexIsNilNode(ch) {
+					if nilChild == "" {
+						nilChild = "nil-child:" + typ
+					}
+					skipSpan = true
+				}
+			}
+		}
+		if !skipSpan {
+			st, en := n.Start(), n.End()
+			if st > en && badSpan == "" {
+				badSpan = "bad-span:" + typ
+			}
+			info := root.NodeInfo(n)
+			if int(st) < 0 || int(en) >= len(items) {
+				if badSpan == "" {
+					badSpan = "bad-span:" + typ
+				}
+			} else if st <= en {
+				sp, ep := info.Start(), info.End()
+				if (sp.Offset < 0 || ep.Offset > dataLen || sp.Offset > ep.Offset+1) && badSpan == "" {
+					badSpan = "bad-span:" + typ
+				}
+				_ = info.RawText()
+				_ = info.LeadingWhitespace()
+				_ = info.LeadingComments().Len()
+				_ = info.TrailingComments().Len()
+			}
+		}
+		if cn, ok := n.(ast.CompositeNode); ok {
+			for _, ch := range cn.Children() {
+				visit(ch, typ)
+			}
+		}
+	}
+	visit(root, "root")
+	if nilChild == "" {
+		_ = ast.Walk(root, &ast.SimpleVisitor{DoVisitNode: func(n ast.Node) error {
+			if !lexIsNilNode(n) && (eofOK || (n != ast.Node(root) && n != ast.Node(root.EOF))) {
+				_ = n.Start()
+				_ = n.End()
+			}
+			return nil
+		}})
+	}
+	for _, p := range []string{nilChild, badSpan, badEOF} {
+		if p != "" {
+			return p
+		}
+	}
+	return "ok"
 }
 
 // lexObserveTotal runs parser.Parse and ResultFromAST under recover.
@@ -1272,18 +1447,25 @@ func lexObserveTotal(data []byte, lenient bool) (o lexTotObs) {
 		o.astNil = root == nil
 	}()
 	o.errs = c.errs
+	o.walk = "ok"
 	if o.panicMsg != "" || root == nil {
 		return o
 	}
+	o.walk = lexWalkAST(root, len(root.VerifFileInfo().VerifData()))
+	c2 := &lexCollector{lenient: true}
 	func() {
 		defer func() {
 			if r := recover(); r != nil {
 				o.resPanic = Canon(fmt.Sprint(r))
 			}
 		}()
-		c2 := &lexCollector{lenient: true}
 		_, _ = parser.ResultFromAST(root, true, c2.handler())
 	}()
+	for _, e := range c2.errs {
+		if e.line > 0 { // errors without a position (line 0) carry nothing to check
+			o.resErrs = append(o.resErrs, e)
+		}
+	}
 	return o
 }
 
@@ -1296,10 +1478,20 @@ func lexObsOffsets(o lexTotObs) string {
 	return lexJoinOr(xs, ",")
 }
 
-// Exec: "tot <mode> <hex> <offset:class,...> <parse> <res>": offset and message class of the
-// reported errors, whether parser.Parse panicked and the outcome of ResultFromAST were observed when
-// the case was generated (the LALR automaton, the AST constructors and result.go are not
+// Exec: "tot <mode> <hex> <offset:class,...> <parse> <res> <result error offsets> <walk>": offset and
+// message class of the errors Parse reported, whether parser.Parse panicked, the outcome of
+// ResultFromAST (validation on, reporter that continues), the offsets of the errors it reported and
+// the outcome of touching every node of the AST were observed when the case was generated (the LALR automaton, the AST constructors and result.go are not
 // modelled); they are re-observed here and must match.
+// lexResOffsets: offsets of the positioned errors reported by ResultFromAST, in order.
+func lexResOffsets(o lexTotObs) string {
+	var xs []string
+	for _, e := range o.resErrs {
+		xs = append(xs, strconv.Itoa(e.off))
+	}
+	return lexJoinOr(xs, ",")
+}
+
 func lexResOutcome(o lexTotObs) string {
 	if o.resPanic != "" {
 		return "PANIC:" + strings.ReplaceAll(o.resPanic, " ", "_")
@@ -1316,7 +1508,7 @@ func lexParseOutcome(o lexTotObs) string {
 
 func (lextotalEngine) Exec(op string) string {
 	w := strings.Fields(op)
-	if len(w) != 6 || w[0] != "tot" {
+	if len(w) != 8 || w[0] != "tot" {
 		return "bad-op"
 	}
 	lenient, ok := lexMode(w[1])
@@ -1333,6 +1525,12 @@ func (lextotalEngine) Exec(op string) string {
 	if got := lexResOutcome(o); got != w[5] {
 		return "obs-mismatch res=" + got
 	}
+	if got := lexResOffsets(o); got != w[6] {
+		return "obs-mismatch rerrs=" + got
+	}
+	if o.walk != w[7] {
+		return "obs-mismatch walk=" + o.walk
+	}
 	if o.panicMsg != "" {
 		return "PANIC " + strings.ReplaceAll(o.panicMsg, " ", "_")
 	}
@@ -1347,17 +1545,22 @@ func (lextotalEngine) Exec(op string) string {
 	if o.err {
 		e = "1"
 	}
-	return fmt.Sprintf("ast=%s err=%s rep=%d pos=%s res=%s", a, e, len(o.errs), lexJoinOr(ps, ","), lexResOutcome(o))
+	var rps []string
+	for _, e := range o.resErrs {
+		rps = append(rps, fmt.Sprintf("%d:%d:%d", e.off, e.line, e.col))
+	}
+	return fmt.Sprintf("ast=%s err=%s rep=%d pos=%s res=%s rpos=%s walk=%s", a, e, len(o.errs), lexJoinOr(ps, ","),
+		lexResOutcome(o), lexJoinOr(rps, ","), o.walk)
 }
 
-func (lextotalEngine) Trivial(op, ans string) bool { return strings.Contains(op, " - - ") }
+func (lextotalEngine) Trivial(op, ans string) bool { return strings.HasPrefix(op, "tot l - ") || strings.HasPrefix(op, "tot s - ") }
 
 func (lextotalEngine) Class(op, ans string) string {
 	switch {
 	case strings.HasPrefix(ans, "PANIC"):
 		return "tot:panic"
 	case strings.Contains(ans, "err=0"):
-		return "tot:lexAccepted"
+		return "tot:accepted"
 	}
 	return "tot:rejected"
 }
@@ -1369,7 +1572,8 @@ func (lextotalEngine) Gen(r *Rand, tier string) [][]string {
 	add := func(mode string, b []byte) {
 		lenient := mode == "l"
 		o := lexObserveTotal(b, lenient)
-		op := "tot " + mode + " " + Hex(b) + " " + lexObsOffsets(o) + " " + lexParseOutcome(o) + " " + lexResOutcome(o)
+		op := "tot " + mode + " " + Hex(b) + " " + lexObsOffsets(o) + " " + lexParseOutcome(o) + " " + lexResOutcome(o) +
+			" " + lexResOffsets(o) + " " + o.walk
 		if !seen[op] {
 			seen[op] = true
 			ops = append(ops, op)
@@ -1413,6 +1617,13 @@ func (lextotalEngine) Gen(r *Rand, tier string) [][]string {
 	for i, sh := range lexEscapeNewlineShapes() {
 		add("l", []byte(sh))
 		if i%4 == 0 {
+			add("s", []byte(sh))
+		}
+	}
+	// a syntax error the parser recovers from x a semantic error about the same node
+	for i, sh := range lexRecoveredSemanticShapes() {
+		add("l", []byte(sh))
+		if i%5 == 0 {
 			add("s", []byte(sh))
 		}
 	}
